@@ -76,6 +76,13 @@
         n += jobs.iter().filter(|j| j.state.is_running()).count();
         if let Some(j) = jobs.iter().find(|j| j.job_id == "A") { n += j.job_id.len(); }
         if v.is_empty() { n += 1; }
+        let mut lit = vec![1usize, 2, 3];
+        if let Some(x) = lit.last_mut() { *x += 5; }
+        if let Some(x) = lit.first_mut() { *x += 7; }
+        n += lit.iter().sum::<usize>();
+        let mut frames: Vec<(usize, Vec<usize>, usize, bool)> = vec![(1, vec![4, 5], 0, false)];
+        { let f = frames.last_mut().unwrap(); f.2 += 1; f.3 = true; n += f.1[f.2]; }
+        if let Some(f) = frames.pop() { if f.3 { n += f.0 + f.2; } }
         let sl = &v[..];
         n += sl.len();
         n
